@@ -191,6 +191,8 @@ int main (int argc, char **argv)
         if (isf) ps.vars[i].ptype = ps.vars[i].size == 8 ? PT_DOUBLE : PT_FLOAT; else if (ps.vars[i].size == 8) ps.vars[i].ptype = PT_INT64;
       }
       if (vh_chance (&r, 1, 6)) ps.const_n = 8 + (int) vh_randn (&r, 60);
+      /* values at the edges of the one-byte/two-byte encodings of the embedded bytecode */
+      if (ps.const_n && vh_chance (&r, 1, 3)) { static const int edge[] = { 127, 128, 129, 254, 255, 256, 257, 300 }; ps.const_n = edge[vh_randn (&r, 8)]; }
       if (ps.is2d && vh_chance (&r, 1, 4)) ps.const_m = 1 + (int) vh_randn (&r, 3);
       n = ps.const_n ? ps.const_n : (vh_chance (&r, 1, 12) ? (int) vh_randn (&r, 3) : (int) vh_randn (&r, 90));
       m = ps.is2d ? (ps.const_m ? ps.const_m : 1 + (int) vh_randn (&r, 4)) : 1;
